@@ -60,7 +60,8 @@ def scenario(ctx, i):
     if i % 2:
         cur = dict(w=r.dirichlet(np.full(C, 3.0)), m=m + 0.3 * r.normal(size=m.shape) * np.sqrt(v), v=v * r.uniform(0.5, 2, v.shape))
     return dict(C=C, D=D, w=w, m=m, v=v, x=x, um=um, uv=uv, uw=uw, reynolds=reyn, r=rel, alpha=alpha, thr=thr, st=st, cur=cur, floor=gen.EPS, int_prior=int_prior,
-                late=[None, None, "set_params", "setattr"][int(r.integers(0, 4))])
+                late=[None, None, "set_params", "setattr"][int(r.integers(0, 4))],
+                sw_kind=["py", "py", "np", "int"][int(r.integers(0, 4))])
 
 
 def mk_map(sc, **kw):
@@ -69,7 +70,9 @@ def mk_map(sc, **kw):
     ubm = gen.mk_gmm(sc["w"], sc["m"], sc["v"], thr=sc["floor"])
     if sc.get("int_prior"):
         ubm.means = np.rint(np.asarray(sc["m"])).astype(np.int64)
-    opts = dict(update_means=sc["um"], update_variances=sc["uv"], update_weights=sc["uw"],
+    # a switch is a truth value: Python bools, NumPy bools (what from_hdf5 restores, what a comparison of NumPy values gives), 0 / 1
+    sw = {"py": bool, "np": np.bool_, "int": int}[sc.get("sw_kind", "py")]
+    opts = dict(update_means=sw(sc["um"]), update_variances=sw(sc["uv"]), update_weights=sw(sc["uw"]),
                 map_relevance_factor=sc["r"] if sc["reynolds"] else None, map_alpha=sc["alpha"])
     if sc.get("late"):
         # configured after construction (set_params / attribute assignment): what counts is the configuration at fit time
@@ -135,7 +138,7 @@ def correspondence(ctx):
         ctx.count("starved-component" if starved else "all-components-have-evidence")
         ctx.case([core.tolist(sc["m"]), core.tolist(st.n), sw, sc["r"], sc["alpha"], sc["reynolds"]], nontrivial=sc["C"] >= 2 and (sc["um"] or sc["uv"] or sc["uw"]),
                  sample={"C": sc["C"], "D": sc["D"], "switches": sw, "relevance": sc["r"] if sc["reynolds"] else None, "alpha": sc["alpha"], "n": st.n})
-        inp = {**{k: sc[k] for k in ("w", "m", "v", "um", "uv", "uw", "reynolds", "r", "alpha", "thr", "cur", "late", "int_prior") if k in sc}, "stats": gen.stats_impl(st)}
+        inp = {**{k: sc[k] for k in ("w", "m", "v", "um", "uv", "uw", "reynolds", "r", "alpha", "thr", "cur", "late", "int_prior", "sw_kind") if k in sc}, "stats": gen.stats_impl(st)}
         if isinstance(res, core.ImplError):
             bad.append({"op": "gmm_mstep_map:means", "input": inp, "impl": repr(res)})
             continue
@@ -294,7 +297,7 @@ def search(ctx):
         f = oracle_penalised(sc)
         if f and f["sig"] not in seen:
             seen.add(f["sig"])
-            f["input"] = {k: sc[k] for k in ("C", "D", "w", "m", "v", "x", "um", "uv", "uw", "reynolds", "r", "alpha", "thr", "st", "cur", "floor", "late", "int_prior") if k in sc}
+            f["input"] = {k: sc[k] for k in ("C", "D", "w", "m", "v", "x", "um", "uv", "uw", "reynolds", "r", "alpha", "thr", "st", "cur", "floor", "late", "int_prior", "sw_kind") if k in sc}
             f["oracle"] = "penalised"
             fails.append(f)
     for i in range(ctx.budget(64, 640)):
@@ -304,7 +307,7 @@ def search(ctx):
         f = oracle(sc) or (oracle_limits(sc) if i % 4 == 0 else None)
         if f and f["sig"] not in seen:
             seen.add(f["sig"])
-            f["input"] = {k: sc[k] for k in ("C", "D", "w", "m", "v", "x", "um", "uv", "uw", "reynolds", "r", "alpha", "thr", "st", "cur", "floor", "late", "int_prior") if k in sc}
+            f["input"] = {k: sc[k] for k in ("C", "D", "w", "m", "v", "x", "um", "uv", "uw", "reynolds", "r", "alpha", "thr", "st", "cur", "floor", "late", "int_prior", "sw_kind") if k in sc}
             f["oracle"] = "limits" if f["sig"].startswith("map-limit") else "blend"
             fails.append(f)
     return fails
